@@ -63,7 +63,7 @@ class C13(Prop):
     rule = (
         "cases = a deterministic workflow (1-4 jobs fanned out with ctx.send_event and/or a returned event to a retrying worker step "
         "with num_workers 1..3, idempotent state writes, a collect_events gatherer, a final step returning the StopEvent; in some cases one job "
-        "exhausts its retries so the run ends failed, or the run is cancelled through the service at a generated instant) served by the "
+        "exhausts its retries so the run ends failed, or the run is cancelled through the service at a generated instant; in one case of three the final step waits for one or two human answers in sequence, given by a harness task that outlives the processes and re-sends what the step bodies still wait for) served by the "
         "real WorkflowServer runtime chain over a MemoryWorkflowStore or SqliteWorkflowStore. The uninterrupted run gives the expected "
         "result and its persisted tick count K. Then for EVERY k in 1..K the run is repeated with a store that freezes after the k-th "
         "persisted tick; at that moment every task of the process is killed, all in-memory objects are dropped, a new server with a new "
@@ -88,6 +88,12 @@ class C13(Prop):
     def strategy(self, tier):
         def mk(p):
             c = dict(p[0], store=p[1], end_mode=p[2], cancel_at=p[3], page=p[5])
+            if c.get("wait") or c.get("pre_wait"):
+                c["end_mode"] = "stop"  # the human-in-the-loop cases all run to their StopEvent
+            if c["end_mode"] == "cancel":
+                # make sure the cancel request can land while the run is still working: one job that takes a while
+                c["jobs"] = [dict(j) for j in c["jobs"]]
+                c["jobs"][0]["d"] = max(c["jobs"][0]["d"], 3)
             if c["end_mode"] == "fail":
                 # one job fails on every attempt: the run ends with a step failure after exhausting the retry budget
                 c["jobs"] = [dict(j) for j in c["jobs"]]
@@ -95,7 +101,7 @@ class C13(Prop):
             return c
 
         return st.tuples(
-            srv.det_strategy(timers=False, hitl=False),
+            st.one_of(srv.det_strategy(timers=False, hitl=False), srv.det_strategy(timers=False, hitl=False), srv.det_strategy(timers=False, hitl=True)),
             st.sampled_from(["memory", "memory", "sqlite"]),
             st.sampled_from(["stop", "stop", "stop", "fail", "cancel"]),
             st.sampled_from([0.5, 1.5, 2.5, 3.5, 5.5]),
@@ -110,7 +116,29 @@ class C13(Prop):
         ge = genwf.M()["ge"]
         real = srv.make_store(store_kind, tmpdir)
         proxy = srv.StoreProxy(real, crash_after_tick=crash_after)
+        if case.get("wait") or case.get("pre_wait"):
+            # the human: created before the first life so that it is not part of any process; answers what the workflow is (still)
+            # waiting for, as told by the step bodies themselves, once per half second through whichever server life is up
+            cur = log.setdefault("_cur", {})
+
+            async def human():
+                while True:
+                    await asyncio.sleep(0.5)
+                    lf = cur.get("life")
+                    if lf is None or lf.dead:
+                        continue
+                    try:
+                        if log.get("pre_asked") and not log.get("pre_got"):
+                            await lf.server._service.send_event("h1", ge.Reply2(key="pre"))
+                        elif log.get("wait_at") and not log.get("asked"):
+                            await lf.server._service.send_event("h1", ge.Reply(key="k"))
+                    except Exception:  # noqa: BLE001  (handler already terminal, or the process is going down)
+                        pass
+
+            log["_human"] = asyncio.create_task(human())
         life = await srv.start_life(proxy, srv.det_factory(case, log))
+        if "_cur" in log:
+            log["_cur"]["life"] = life
         hd = await life.server._service.start_workflow(life.wf, "h1", start_event=ge.GStart())
         if case.get("end_mode") == "cancel":
 
@@ -124,6 +152,13 @@ class C13(Prop):
 
             asyncio.create_task(canceller())
         return real, proxy, life, hd
+
+    @staticmethod
+    async def _stop_human(log):
+        h = log.pop("_human", None)
+        if h is not None:
+            h.cancel()
+            await asyncio.gather(h, return_exceptions=True)
 
     def run_case(self, case):
         case = json.loads(json.dumps(case))
@@ -147,7 +182,7 @@ class C13(Prop):
     def _run_case(self, case, store_kind, page):
         r = CaseResult()
         end_mode = case.get("end_mode", "stop")
-        expected = srv.expected_result(case, None)
+        expected = srv.expected_result(case, "k" if case.get("wait") else None)
         horizon = 60.0 + 6 * sum(j["d"] * case["attempts"] for j in case["jobs"])
         stats = {"prefixes": 0, "inside": 0, "unpersisted": 0, "finalised": 0, "idle_marked": 0, "clean": 0}
         out = {"K": 0}
@@ -175,6 +210,7 @@ class C13(Prop):
                 out["pending_after"] = pend
                 await srv.kill_life(life)
             finally:
+                await self._stop_human(log)
                 srv.cleanup_tmp(tmp)
                 genwf.CUR = None
 
@@ -201,6 +237,8 @@ class C13(Prop):
                 rec2 = genwf.Rec({"ties": case["ties"], "ext": []})
                 genwf.CUR = rec2
                 life2 = await srv.start_life(real, srv.det_factory(case, log))
+                if "_cur" in log:
+                    log["_cur"]["life"] = life2
                 row = await srv.wait_terminal(real, "h1", horizon)
                 res["status"] = row.status if row else None
                 res["result"] = srv.result_of(row)
@@ -208,6 +246,7 @@ class C13(Prop):
                 res["reentered"] = len(log["work"]) - n_work0 + len([s for s in log.get("start", []) if s["life"] == 1])
                 await srv.kill_life(life2)
             finally:
+                await self._stop_human(log)
                 srv.cleanup_tmp(tmp)
                 genwf.CUR = None
             return res
@@ -275,6 +314,8 @@ class C13(Prop):
             elif want_inside == "completed" and srv.canon(res["result"]) != srv.canon(expected):
                 r.v("resumed_run_wrong_result", **attrs)
         r.classes.append("store_" + store_kind)
+        if case.get("wait") or case.get("pre_wait"):
+            r.classes.append("human_in_the_loop" + ("_two_sequential_waits" if case.get("wait") and case.get("pre_wait") else ""))
         if page is not None:
             r.classes.append("sqlite_small_tick_pages")
             if K and K % page == 0:
